@@ -1,6 +1,6 @@
 /-
   C07 — A squashfs image contains exactly the tree it was built from.
-  Property theorems only (helpers in Proofs/SqfsMap, SqfsMeta, SqfsCodec).  Proved for all inputs
+  Property theorems only (helpers in Proofs/Sqfs*.lean).  Proved for all inputs
   about the logic cores mirrored in Model/Sqfs:
     * data mapping: for the modelled builder core (full blocks, each stored compressed only if
       smaller; the tail inside a shared fragment block) every read call and every sequence of read
@@ -21,7 +21,15 @@
       streams holds the whole stream in blocks of 1..8192 bytes;
     * inode and directory-table codecs round-trip (`inode_roundtrip`, `dir_listing_roundtrip`), and
       on uncompressed metadata streams that show a tree the pure reader returns exactly that tree
-      (`reader_walks_tree`).
+      (`reader_walks_tree`);
+    * the reading side over the BYTES of an image (Model/Sqfs/ImageRd.lean, any codec, compressed or
+      uncompressed metadata): a metadata block round-trips through writeMetadataBlock /
+      readMetaBlock; `readMetadata` over a table laid down by the writers returns the uncompressed
+      stream from any (block, offset) reference across block boundaries
+      (`metadata_stream_reads_back`); `getInode` finds the inode whatever type the caller announces;
+      the fragment and id tables read back; if the image shows a tree (`ImgShows`) the walk of
+      ReadDir / ReadFile returns exactly that tree with owners and file bytes
+      (`image_walk_returns_tree`).
   The compressors themselves are outside Lean (parameter `Codec`); the end-to-end clause is
   evaluated on the real code by the engine (see the registration note).
 -/
@@ -32,6 +40,8 @@ import DiskfsModel.Proofs.SqfsCodec
 import DiskfsModel.Proofs.SqfsRegions
 import DiskfsModel.Proofs.SqfsInode
 import DiskfsModel.Proofs.SqfsWalk
+import DiskfsModel.Proofs.SqfsImageRd
+import DiskfsModel.Proofs.SqfsImageWr
 import DiskfsModel.Generated.Sqfs
 namespace Diskfs.Sqfs.C07
 
@@ -293,5 +303,202 @@ example : sqWalk wEnv 1 [] wRoot = some [([[97]], wFile)] := by
     simp [wT] at hc; subst hc
     simp [STree.isDir, wT, wFile, listingRef] at hd)
   simpa [wT, STree.walk, STree.isDir, wFile, listingRef] using this
+
+
+/-! ## the reading side over image bytes (Model/Sqfs/ImageRd.lean) -/
+
+/-- one metadata block round-trips through `writeMetadataBlock` / `readMetaBlock` on the device:
+    whatever the codec did (compressed and kept, or stored with the 0x8000 flag), reading at the
+    block's location returns its contents and its stored length (header included) -/
+theorem metadata_block_roundtrip (c : Codec) (noComp : Bool) (img : Dev) (loc : Nat) (blk : Bytes) (hb : BlockOK blk)
+    (h : HoldsAt img loc (encodeMetaBlock c noComp blk)) :
+    readMetaBlock c img loc = (blk, (encodeMetaBlock c noComp blk).length) :=
+  readMetaBlock_written c noComp img loc blk hb h
+
+/-- **readMetadata over a table laid down by `metaTable` returns the stream.**  The device shows
+    the encoded blocks `blocks` from `tbl` on (each 1..8192 bytes before compression, any codec,
+    compressed or not).  Then for every block `k`, every offset `off` inside it and every `size`
+    that the uncompressed stream still holds from there, `readMetadata` called with the byte offset
+    of block `k` (the value `writeInodes` records in `blockOffsets`) returns a prefix, at least
+    `size` bytes long, of the uncompressed stream from (k, off) on — across as many blocks as it
+    takes. -/
+theorem metadata_stream_reads_back (c : Codec) (noComp : Bool) (img : Dev) (tbl : Nat) (blocks : List Bytes)
+    (hok : ∀ x ∈ blocks, BlockOK x) (hT : HoldsAt img tbl (metaTable c noComp blocks)) (k off : Nat) (hk : k < blocks.length)
+    (ho : off ≤ (blocks.getD k []).length) (size : Nat) (hs : size ≤ ((blocks.drop k).flatten.drop off).length) :
+    (∃ n, size ≤ n ∧ n ≤ ((blocks.drop k).flatten.drop off).length ∧
+      readMetadata c img tbl (metaOff c noComp blocks k) off size = some (((blocks.drop k).flatten.drop off).take n)) ∧
+    (blockOffsets (blocks.map fun b => (storeBlock c noComp b).payload.length) 0).getD k 0 = metaOff c noComp blocks k :=
+  ⟨readsFrom_of_table c noComp img tbl blocks hok hT k off hk ho size hs, by simpa using metaOff_blockOffsets c noComp blocks 0 k hk⟩
+
+/-- **getInode finds the inode**, whatever basic or extended type (1..14) the caller announces: the
+    read / re-read with the header's type / re-read with the body's `extra` sequence ends with the
+    inode that is encoded at the reference -/
+theorem get_inode_finds_inode (c : Codec) (img : Dev) (tbl bs blockOff byteOff typ : Nat) (i : Inode) (rest : Bytes)
+    (hwf : i.WF bs) (htyp : 16 ≤ typeSize typ) (hts : typeSize typ ≤ (encodeInode i ++ rest).length)
+    (hask : i.ask ≤ (encodeInode i ++ rest).length)
+    (RM : ReadsFrom c img tbl blockOff byteOff (encodeInode i ++ rest)) :
+    getInodeM c img tbl bs blockOff byteOff typ = some i :=
+  getInodeM_spec c img tbl bs blockOff byteOff typ i rest hwf htyp hts hask RM
+
+/-- `getDirectory` returns the listing that is encoded at the reference -/
+theorem get_directory_finds_listing (c : Codec) (img : Dev) (tbl blockOff byteOff : Nat) (es : List DEnt) (rest : Bytes)
+    (hwf : ∀ e ∈ es, e.WF 0) (RM : ReadsFrom c img tbl blockOff byteOff (encodeListing 0 es ++ rest)) :
+    getDirM c img tbl blockOff byteOff (encodeListing 0 es).length = some es :=
+  getDirM_spec c img tbl blockOff byteOff es rest hwf RM
+
+/-- **the reader walks the image**: if the image shows the tree to `readMetadata` (`ImgShows`: at
+    every entry's reference the metadata stream starts with the entry's inode, at every directory's
+    listing reference with its listing; owner indices are in the id table; the data and fragment
+    blocks the inode names hold the contents), then the walk `ReadDir` /
+    `hydrateDirectoryEntries` / `ReadFile` perform below a directory inode returns exactly the
+    depth-first list of the tree: path, decoded inode, owner ids, file bytes — for every codec,
+    compressed or uncompressed metadata, every nesting depth -/
+theorem image_walk_returns_tree (c : Codec) (img : Dev) (o : Opened) (t : STree) (a : Nat → Attr) (hs : ImgShows c img o t a)
+    (fuel : Nat) (pre : List Bytes) (d : Nat) (hd : d < t.n) (hdir : t.isDir d = true) (hfit : t.Fits fuel d) :
+    imgWalk c img o fuel pre (t.ino d) = some (t.walkS a fuel pre d) :=
+  imgWalk_walk c img o t a hs fuel pre d hd hdir hfit
+
+/-- the fragment table reads back: metadata blocks of 16-byte entries at `loc`, the index of
+    8-byte pointers at `fragStart` — `readFragmentTable` with the superblock's count returns
+    exactly the entries (any number of them, any codec) -/
+theorem fragment_table_roundtrip (c : Codec) (noComp : Bool) (img : Dev) (loc fragStart : Nat) (ents : List FragEnt)
+    (hwf : ∀ e ∈ ents, e.WF) (hT : HoldsAt img loc (metaTable c noComp (metaChunks (fragStream ents))))
+    (hI : HoldsAt img fragStart (lookupIndex c noComp loc (metaChunks (fragStream ents))))
+    (h64 : loc + (metaTable c noComp (metaChunks (fragStream ents))).length < 2 ^ 64) :
+    readFragTable c img fragStart ents.length = some ents :=
+  readFragTable_written c noComp img loc fragStart ents hwf hT hI h64
+
+/-- the id table reads back for at most 16384 ids (`readUidsGids` computes the number of metadata
+    blocks in uint16: right up to 16384 ids; at 16385 ids nine blocks are needed and one is read) -/
+theorem id_table_roundtrip (c : Codec) (noComp : Bool) (img : Dev) (loc idStart : Nat) (ids : List Nat)
+    (hwf : ∀ x ∈ ids, x < 2 ^ 32) (hn : ids.length ≤ 16384)
+    (hT : HoldsAt img loc (metaTable c noComp (metaChunks (idStream ids))))
+    (hI : HoldsAt img idStart (lookupIndex c noComp loc (metaChunks (idStream ids))))
+    (h64 : loc + (metaTable c noComp (metaChunks (idStream ids))).length < 2 ^ 64) :
+    readIdTable c img idStart ids.length = ids ∧ (idBlocks 16385 = 1 ∧ (16385 * 4 + 8191) / 8192 = 9) :=
+  ⟨readIdTable_written c noComp img loc idStart ids hwf hn hT hI h64, id_blocks_wrap⟩
+
+/-! non-vacuity: a device holding one compressed and one uncompressed metadata block (codec `rle`
+    shrinks [5,5,5,5]) -/
+private def exBlocks : List Bytes := [[5, 5, 5, 5], [1, 2, 3]]
+private def exDev : Dev := fun i => ([9, 9] ++ metaTable rle false exBlocks).getD i 0
+example : metaTable rle false exBlocks = [1, 0, 1, 3, 128, 1, 2, 3] := by decide
+example : HoldsAt exDev 2 (metaTable rle false exBlocks) := by unfold HoldsAt; decide
+example : ∀ x ∈ exBlocks, BlockOK x := by simp [exBlocks, BlockOK, metaBlock]
+example : readMetadata rle exDev 2 0 1 5 = some [5, 5, 5, 1, 2, 3] := by decide
+example : readMetadata rle exDev 2 (metaOff rle false exBlocks 1) 1 2 = some [2, 3] := by decide
+private def exFrags : List FragEnt := [⟨96, 100, true⟩, ⟨196, 4096, false⟩]
+private def exDev2 : Dev := fun i =>
+  (metaTable mark true (metaChunks (fragStream exFrags)) ++ lookupIndex mark true 0 (metaChunks (fragStream exFrags))).getD i 0
+example : readFragTable mark exDev2 34 2 = some exFrags := by decide
+
+-- `ImgShows` is satisfiable: the two-entry tree `wT` (a root holding one empty file) on a device that
+-- holds one inode-table block and one directory-table block
+private def iI : Bytes := encodeInode wRoot ++ encodeInode wFile
+private def iD : Bytes := encodeListing 0 [wT.dent 1]
+private def iDev : Dev := fun i => (metaTable mark false [iI, iD]).getD i 0
+private def iO : Opened := { bs := 4096, inodeStart := 0, dirStart := 74, frags := [], ids := [1000] }
+private def iA : Nat → Attr := fun _ => ⟨1000, 1000, []⟩
+private theorem iShows : ImgShows mark iDev iO wT iA := by
+  have two : ∀ c, c < 2 → c = 0 ∨ c = 1 := by omega
+  have hok : ∀ x ∈ [iI, iD], BlockOK x := by
+    intro x hx
+    simp at hx
+    rcases hx with rfl | rfl <;> exact ⟨by decide, by decide⟩
+  have hT : HoldsAt iDev 0 (metaTable mark false [iI, iD]) := by unfold HoldsAt; decide
+  have hTD : HoldsAt iDev 74 (metaTable mark false [iD]) := by unfold HoldsAt; decide
+  have r0 := readsFrom_of_table mark false iDev 0 [iI, iD] hok hT 0 0 (by decide) (by decide)
+  have r1 := readsFrom_of_table mark false iDev 0 [iI, iD] hok hT 0 40 (by decide) (by decide)
+  have rD := readsFrom_of_table mark false iDev 74 [iD] (fun x hx => hok x (by simp at hx ⊢; exact Or.inr hx)) hTD 0 0 (by decide) (by decide)
+  refine ⟨?_, ?_, ?_, ?_, ?_, ?_, ?_⟩
+  · intro d hd c hc
+    rcases two d hd with rfl | rfl <;> simp [wT] at hc ⊢
+    omega
+  · intro k hk
+    rcases two k hk with rfl | rfl
+    · exact ⟨encodeInode wFile ++ iD, by simpa [iO, wT, iI, metaOff, metaTable] using r0, by decide, by decide⟩
+    · refine ⟨iD, ?_, by decide, by decide⟩
+      have e : ([iI, iD].drop 0).flatten.drop 40 = encodeInode (wT.ino 1) ++ iD := by decide
+      rw [e] at r1
+      simpa [iO, wT, metaOff, metaTable] using r1
+  · intro k hk
+    rcases two k hk with rfl | rfl
+    · simp [wT, wRoot, Inode.WF, IBody.WF]
+    · simp [wT, iO, wFile, Inode.WF, IBody.WF, noFrag, blockCount]
+  · intro k hk
+    rcases two k hk with rfl | rfl <;>
+      simp [wT, STree.dent, DEnt.WF, wRoot, wFile, basicTyp, IBody.typ, typeSize]
+  · intro d hd sb off sz hl
+    rcases two d hd with rfl | rfl
+    · simp [wT, wRoot, listingRef] at hl
+      obtain ⟨rfl, rfl, rfl⟩ := hl
+      refine ⟨[], ?_, by decide⟩
+      have e : ([iD].drop 0).flatten.drop 0 = encodeListing 0 ((wT.kids 0).map wT.dent) ++ [] := by decide
+      rw [e] at rD
+      simpa [iO, metaOff, metaTable] using rD
+    · simp [wT, wFile, listingRef] at hl
+  · intro k hk
+    rcases two k hk with rfl | rfl <;> simp [wT, wRoot, wFile, iO, iA]
+  · intro k hk
+    rcases two k hk with rfl | rfl <;> simp [wT, wRoot, wFile, iA, fileBytes, readS]
+example : imgWalk mark iDev iO 1 [] wRoot = some [⟨[[97]], wFile, 1000, 1000, []⟩] := by
+  have := image_walk_returns_tree mark iDev iO wT iA iShows 1 [] 0 (by decide) (by decide) (by
+    intro c hc hd
+    simp [wT] at hc; subst hc
+    simp [STree.isDir, wT, wFile, listingRef] at hd)
+  simpa [wT, STree.walkS, STree.sent, STree.isDir, wFile, listingRef, iA] using this
+
+/-! ## the writing side down to the bytes (Model/Sqfs/ImageWr.lean) against the reading side -/
+
+/-- **the writers' chunking, on the bytes**: `writeInodes` / `writeDirectories` (append an item, cut
+    8 KiB whenever the buffer EXCEEDS 8 KiB, write what is left) cut exactly the 8 KiB chunks of the
+    concatenated stream, provided no item is longer than 8 KiB -/
+theorem writer_cuts_stream_chunks (items : List Bytes) (h : ∀ x ∈ items, x.length ≤ metaBlock) :
+    cutGT items [] = metaChunks items.flatten := by
+  simpa using cutGT_chunks items [] (by simp) h
+
+/-- **references into a written table resolve on the device**: the device shows the encoded 8 KiB
+    chunks of a stream `S` at `tbl`, followed by the blocks `X` of the next table.  For every
+    position `pos` of `S`, the reference Finalize hands out for it — `translateInodeLocations` of the
+    logical block `pos / 8192` over the block offsets `writeInodes` recorded, and `pos % 8192` —
+    makes `readMetadata` answer from `S` at `pos` and on into `X`: any codec, compressed or not -/
+theorem written_reference_resolves (c : Codec) (nc : Bool) (img : Dev) (tbl : Nat) (S : Bytes) (X : List Bytes)
+    (hX : ∀ x ∈ X, BlockOK x) (hT : HoldsAt img tbl (metaTable c nc (metaChunks S ++ X))) (pos : Nat) (hpos : pos < S.length) :
+    ReadsFrom c img tbl
+      (translate (blockOffsets ((metaChunks S).map fun b => (storeBlock c nc b).payload.length) 0) (pos / metaBlock))
+      (pos % metaBlock) (S.drop pos ++ X.flatten) := by
+  have hk : pos / metaBlock < (metaChunks S).length := by
+    rw [metaChunks_length]
+    apply (Nat.div_lt_iff_lt_mul (by decide)).2
+    have := Nat.div_add_mod (S.length + metaBlock - 1) metaBlock
+    have h2 : (S.length + metaBlock - 1) % metaBlock < metaBlock := Nat.mod_lt _ (by decide)
+    rw [Nat.mul_comm] at this
+    omega
+  rw [translate_metaOff c nc _ _ hk]
+  exact readsFrom_stream c nc img tbl S X hX hT pos (Nat.le_of_lt hpos) hk
+
+/-- **file contents read back**: the full blocks `copyFileData` stored stand at the inode's
+    `blocksStart`, and the fragment reference leads through the fragment table to a stored block
+    that holds the tail (`FragOK`); then `ReadFile` over the inode `createInodes` builds for the
+    entry (basic or extended) returns exactly the contents -/
+theorem file_contents_read_back (c : Codec) (o : WOpt) (hbs : 0 < o.bs) (img : Dev) (frags : List FragEnt) (e : FEnt) (hk : e.kind = 0)
+    (dloc : Nat) (fr : Option (Nat × Nat)) (dir : Nat × Nat × Nat)
+    (hD : HoldsAt img dloc (storedBytes (fileStored c o e)))
+    (hF : FragOK c o.noCompFrag img frags (tailOf o e) fr) :
+    fileBytes c img o.bs frags (mkBody c o e dloc fr dir) = some e.data :=
+  fileBytes_written c o hbs img frags e hk dloc fr dir hD hF
+
+/-! non-vacuity -/
+example : cutGT [[1, 2], [3]] [] = [[1, 2, 3]] := by decide
+private def exOpt : WOpt := { bs := 4, noCompData := false, noCompFrag := false, optBytes := [], exportable := true, modTime := 0,
+                              compression := 1, flags := 0 }
+private def exEnt : FEnt := { name := [97], kind := 0, mode := 0o644, uid := 0, gid := 0, mtime := 0, links := 1, data := [5, 5, 5, 5, 7, 8], kids := [] }
+-- the file's one full block (compressed by `rle` to one byte) at byte 0, its tail inside an uncompressed fragment block at byte 1
+private def exDev3 : Dev := fun i => ([1, 9, 7, 8, 9] : Bytes).getD i 0
+example : fileStored rle exOpt exEnt = [⟨true, [1]⟩] ∧ tailOf exOpt exEnt = [7, 8] := by decide
+example : HoldsAt exDev3 0 (storedBytes (fileStored rle exOpt exEnt)) := by unfold HoldsAt; decide
+example : FragOK rle false exDev3 [⟨1, 4, false⟩] (tailOf exOpt exEnt) (some (0, 1)) :=
+  Or.inr ⟨by decide, ⟨1, 4, false⟩, [9, 7, 8, 9], by decide, by decide, by decide⟩
+example : fileBytes rle exDev3 4 [⟨1, 4, false⟩] (mkBody rle exOpt exEnt 0 (some (0, 1)) (0, 0, 0)) = some [5, 5, 5, 5, 7, 8] := by decide
 
 end Diskfs.Sqfs.C07
